@@ -563,7 +563,7 @@ def seed_part(ctx, R, n_cases):
             tree = strip_seeds(tree)
         inner_seeds = bool(Build([], set_root_seed(tree, None), ext).seeds)
         rootkind = {"P": "plain", "S": "spa", "Z": "spa", "M": "module"}[tree[0]]
-        s1 = rng.randrange(1, 1000)
+        s1 = 0 if ci % 4 == 0 else rng.randrange(1, 1000)      # seed 0 is a seed like any other ("for all seeds")
         s2 = s1 + rng.randrange(1, 1000)
         events = [(rng.randrange(8), rng.choice("ABCDEFG") + rng.choice(["", "1"])) for _ in range(rng.randrange(2, 9))]
         fillers = [([], rand_tree(rng, 2, 0)) for _ in range(rng.randrange(0, 3))]
